@@ -32,7 +32,7 @@ def run(ctx):
         ctx.mc(module, "%s_mc.cfg" % pid, timeout=2500)
         behs = ctx.gen_edges(module, genq if (q and genq) else "%s_gen.cfg" % pid, timeout=3000)
         if q:
-            behs = common.thin(behs, 5000, ctx.seed)
+            behs = common.thin(behs, 4000, ctx.seed)
         ctx.replay(behs, pre, obs, ordered=node_check.tick_unordered, label="edges_" + pid)
         w = ctx.gen_walks(module, "%s_walk.cfg" % pid, num=40 if q else 1500, depth=45, timeout=2500)
         ctx.replay(w, pre, obs, ordered=node_check.tick_unordered, label="walks_" + pid)
@@ -43,5 +43,5 @@ def run(ctx):
     sdo_trace.run(ctx, 300 if q else 10000, ndlg=10, nsrv=1, profile="C20")
     # reset = fresh start of the node as a whole (product model CoFull: TLC checks it on every reset of every walk, the probe resets once more)
     import full_check
-    full_check.run(ctx, 500 if q else 20000)
+    full_check.run(ctx, 300 if q else 6000)
 VARIANTS = {"default": (), "n2": ("CO_SSDO_N=2",)}
